@@ -81,8 +81,11 @@ def exact_part(L, singles, pairs, triples):
             "arr1tm": lambda: tm(_arr1(tm(T.copy()))),
         }
         ang = rxyz_angles(T[:3, :3])
-        if ang is not None:
+        if ang is not None:      # the roll-pitch-yaw flag with every form that carries angles
             forms["rpy6"] = lambda: tm(list(p) + list(ang), rpy=True)
+            forms["rpy:arr6"] = lambda: tm(np.array(list(p) + list(ang)), rpy=True)
+            forms["rpy:arr6x1"] = lambda: tm(np.array(list(p) + list(ang)).reshape((6, 1)), rpy=True)
+            forms["rpy:pair"] = lambda: tm([list(p), list(ang)], True)
         for name, f in forms.items():
             try:
                 got = f().gTM()
@@ -97,6 +100,7 @@ def exact_part(L, singles, pairs, triples):
         L.log("ctor:arr3", reg, err(tm(np.array(rv)).gTM(), Ro), TOL, case)
         if ang is not None:
             L.log("ctor:rpy3", reg, err(tm(list(ang), rpy=True).gTM(), Ro), TOL, case)
+            L.log("ctor:rpy:arr3", reg, err(tm(np.array(ang), rpy=True).gTM(), Ro), TOL, case)
         t = tm(T.copy())
         t2 = tm(T.copy())
         t2.setQuat(t.getQuat())
@@ -186,8 +190,10 @@ def float_part(L, rng, n):
             ang = rxyz_angles(A[:3, :3])
             if ang is not None:
                 L.log("ctor:rpy6", reg, err(tm(list(A[:3, 3]) + list(ang), rpy=True).gTM(), A, s2), TOL, case)
+                L.log("ctor:rpy:pair", reg, err(tm([list(A[:3, 3]), list(ang)], True).gTM(), A, s2), TOL, case)
+                L.log("ctor:rpy:arr6", reg, err(tm(np.array(list(A[:3, 3]) + list(ang)), rpy=True).gTM(), A, s2), TOL, case)
         for law in ("matmul=matrix product", "inv=group inverse", "assoc", "l2g=ref*rel", "g2l=inv(ref)*x",
-                    "g2l(l2g)=id", "ctor:list6", "ctor:list7", "ctor:pair", "ctor:rpy6", "setQuat(getQuat)", "ctor:tmcopy",
+                    "g2l(l2g)=id", "ctor:list6", "ctor:list7", "ctor:pair", "ctor:rpy6", "ctor:rpy:pair", "ctor:rpy:arr6", "setQuat(getQuat)", "ctor:tmcopy",
                     "ctor:arr1tm", "ctor:tmcopy re-oriented", "ctor:tmcopy source keeps its pose"):
             L.require(law, reg, n // 2)
 
@@ -217,7 +223,7 @@ def run(ctx):
     for law in ("matmul=exact", "l2g=exact", "g2l=exact"):
         L.require(law, "exact:pairs", len(pairs) // 3)
     L.require("assoc-left=exact", "exact:triples", len(triples) // 4)
-    for f in ("list6", "arr6", "pair", "list7", "mat44", "tmcopy", "arr1tm", "rpy6", "list3"):
+    for f in ("list6", "arr6", "pair", "list7", "mat44", "tmcopy", "arr1tm", "rpy6", "rpy:pair", "rpy:arr6", "list3"):
         L.require("ctor:" + f, "exact:generic", 10)
     n_exact = len(L.events)
     with ctx.timed("float"):
